@@ -472,6 +472,80 @@ func checkST1(c *Ctx, st *statsType, key string, fld *types.Var, want token.Toke
 	// ST2: every value reaches the update decision
 	if val != nil && len(gates) > 0 {
 		checkST2(c, key, val, gates)
+		checkST8(c, key, val)
+	}
+}
+
+// ST8: when the value is taken from a slice by a hand-kept position (vals[i] next to a loop over the levels), the position
+// advances by exactly one for every value taken and stays put otherwise — or the accumulators see the first value again
+// and again (or skip values) and the bounds are not bounds of the page.
+func checkST8(c *Ctx, key string, V ssa.Value) {
+	r, u := c.R, c.U
+	ld, ok := V.(*ssa.UnOp)
+	if !ok || ld.Op != token.MUL {
+		return
+	}
+	ia, ok := ld.X.(*ssa.IndexAddr)
+	if !ok {
+		return
+	}
+	if _, isParam := ia.X.(*ssa.Parameter); !isParam {
+		return
+	}
+	fn := ld.Parent()
+	pos := u.Pos(ld.Pos())
+	k := strings.TrimSuffix(strings.TrimSuffix(key, " min"), " max") + " value position"
+	// the index of a `for i, v := range vals` loop enumerates by construction
+	for _, l := range countedLoops(fn) {
+		if l.idx == ia.Index && l.full && l.seq == ia.X {
+			r.ok("ST8", k, pos, "range index of the values")
+			return
+		}
+	}
+	I, ok := ia.Index.(*ssa.Phi)
+	if !ok {
+		r.bad("ST8", k, pos, "the value is taken at position "+symExpr(ia.Index, 0)+", which is not a running position")
+		return
+	}
+	E := ld.Block()
+	var bad []string
+	seen := map[*ssa.Phi]bool{}
+	var leaves func(phi *ssa.Phi)
+	leaves = func(phi *ssa.Phi) {
+		if seen[phi] {
+			return
+		}
+		seen[phi] = true
+		for i, e := range phi.Edges {
+			from := phi.Block().Preds[i]
+			if p2, ok := e.(*ssa.Phi); ok && p2 != I {
+				leaves(p2)
+				continue
+			}
+			through := from == E || E.Dominates(from)
+			switch {
+			case through:
+				if bo, ok := e.(*ssa.BinOp); !ok || bo.Op != token.ADD || bo.X != ssa.Value(I) || !constIs(bo.Y, 1) {
+					bad = append(bad, "after a value has been taken the position becomes "+symExpr(e, 0)+", want position+1: the next value compared is not the next value of the page")
+				}
+			case constIs(e, 0) && !phi.Block().Dominates(from):
+				// entry
+			case e == ssa.Value(I):
+				// a null: the position stays
+			default:
+				if bo, ok := e.(*ssa.BinOp); ok && bo.Op == token.ADD && bo.X == ssa.Value(I) {
+					bad = append(bad, "the position also advances on a path that takes no value (a null level)")
+				} else if !(constIs(e, 0)) {
+					bad = append(bad, "the position is set to "+symExpr(e, 0))
+				}
+			}
+		}
+	}
+	leaves(I)
+	if len(bad) > 0 {
+		r.bad("ST8", k, pos, strings.Join(bad, "; "))
+	} else {
+		r.ok("ST8", k, pos, "the position advances by one exactly when a value is taken")
 	}
 }
 
